@@ -3,7 +3,7 @@
 Require Extraction.
 Require Import ExtrOcamlBasic ExtrOcamlZBigInt.
 From Coq Require Import ZArith QArith String.
-From GMGP Require Import Scalar GridDefs TridiagDefs SparseLUDefs ObjectsDefs InterpDefs StencilDefs SmootherDefs.
+From GMGP Require Import Scalar GridDefs TridiagDefs SparseLUDefs ObjectsDefs InterpDefs StencilDefs SmootherDefs CycleDefs.
 From GMGPGen Require Import GridIndexGen SpecialMembersGen.
 
 Extraction Language OCaml.
@@ -69,4 +69,5 @@ Extraction "model"
   q_lu_factor q_lu_solve q_csr_apply q_pivots q_csr_of_triplets q_csr_of_arrays
   q_P_row q_R_row q_Pex_row q_Rex_row q_Inj_row q_FMG_row wrap1
   q_A_take_row q_A_give_row q_rhs_weight
-  q_block_update q_resid q_smoother_blocks q_ext_smoother_blocks.
+  q_block_update q_resid q_smoother_blocks q_ext_smoother_blocks
+  cyc ecyc top_cycle init_ops solve_loop live_in all_writes ev_reads ev_writes.
